@@ -394,6 +394,8 @@ class Interp:
         if k == 'mem':
             out = []
             for s2, base in self.lv(e['b'], frame, st):
+                if e.get('arrow') and base in s2.refs:
+                    base = s2.refs[base]          # `p->f` through a pointer member bound to a known object (see init_member)
                 loc = base + (e['f'],)
                 if e.get('ref'):
                     r = s2.refs.get(loc)
@@ -404,7 +406,12 @@ class Interp:
             return out
         if k == 'idx':
             return [(s2, base + ('[]',)) for s2, base in self.lv(e['b'], frame, st)]
-        if k == 'un' and e['op'] in ('*', '&'):
+        if k == 'un' and e['op'] == '*':
+            out = []
+            for s2, loc in self.lv(e['e'], frame, st):
+                out.append((s2, s2.refs.get(loc, loc) if '*' in (ir.strip(e['e']).get('ty') or '') else loc))     # a pointer member bound to a known object
+            return out
+        if k == 'un' and e['op'] == '&':
             return self.lv(e['e'], frame, st)
         if k in ('call', 'ctor', 'init', 'cond', 'asg', 'zero', 'new'):
             out = []
@@ -984,6 +991,21 @@ class Interp:
                 s2.refs[floc] = target
                 out.append(s2)
             return out
+        if fdesc is not None and '*' in (fdesc.get('ty') or '') and not fdesc.get('cls'):
+            # a pointer member initialised with the address of an object: the same alias as a reference member
+            x = e
+            while ir.is_expr(x) and x['k'] in ('tmp', 'definit', 'cast'):
+                x = x['e']
+            if ir.is_expr(x) and x['k'] == 'init' and len(x.get('es', [])) == 1:
+                x = x['es'][0]
+            while ir.is_expr(x) and x['k'] in ('cast',):
+                x = x['e']
+            if ir.is_expr(x) and x['k'] == 'un' and x['op'] == '&':
+                out = []
+                for s2, target in self.lv(x['e'], nf, st):
+                    s2.refs[floc] = target
+                    out.append(s2)
+                return out
         if self.untracked(floc):
             return [st]
         x = e
